@@ -54,6 +54,30 @@ fn deser_sound<const N: usize, const QL: usize>() {
             if tag >= 1 && tag <= 3 {
                 panic!("C08: a well-formed control entry was rejected");
             }
+            if tag == 4 {
+                // completeness: a batch whose items tile the buffer exactly must be accepted
+                let body = &b[HDR + QL..];
+                let mut off = 0usize;
+                let mut well_formed = true;
+                let mut k = 0;
+                while k <= N / ITEM {
+                    if off == body.len() {
+                        break;
+                    }
+                    if body.len() - off < ITEM {
+                        well_formed = false;
+                        break;
+                    }
+                    let l = (body[off + 8] as usize) | ((body[off + 9] as usize) << 8) | ((body[off + 10] as usize) << 16) | ((body[off + 11] as usize) << 24);
+                    if body.len() - off - ITEM < l {
+                        well_formed = false;
+                        break;
+                    }
+                    off += ITEM + l;
+                    k += 1;
+                }
+                assert!(!well_formed, "C05/C12: a well-formed batch (items tile the buffer exactly, e.g. a trailing empty payload) was rejected");
+            }
         }
         Some(MultiPlexedRecord::Truncate { queue, truncate_range }) => {
             assert!(tag == 1 && truncate_range.end == pos, "C08: Truncate fields");
